@@ -36,6 +36,8 @@ var initAllow = map[string]bool{
 	"github.com/evolbioinfo/goalign/io":      true,
 	"regexp": true, "regexp/syntax": true,
 	"encoding/binary": true,
+	"github.com/spf13/pflag": true, "github.com/spf13/cobra": true,
+	"text/template": true, "errors": true, "fmt": true,
 }
 
 func harnessOverlay(withCmd bool) (map[string][]byte, map[string]string, error) {
